@@ -265,6 +265,19 @@ func typeMembers(tier string, cfg gen.Config) []member {
 		{Kind: "array", Items: &fam.Spec{Kind: "object", Props: []*fam.Prop{{Label: "q", Spec: &fam.Spec{Kind: "integer"}, Required: true}}}},
 		{Kind: "array", Items: &fam.Spec{Kind: "integer", Null: "after"}},
 	}
+	// goJSONSchema.type overrides (with imports / nillable), required and optional, next to a plain sibling
+	for _, ov := range []struct {
+		typ      string
+		imports  []string
+		nillable bool
+	}{{"time.Duration", []string{"time"}, false}, {"[]byte", nil, true}, {"json.RawMessage", []string{"encoding/json"}, true}, {"netip.Prefix", []string{"net/netip"}, false}} {
+		for _, req := range []bool{true, false} {
+			root := &fam.Spec{Kind: "object", Props: []*fam.Prop{
+				{Label: "o", Spec: &fam.Spec{Kind: "string"}, Required: req, ExtType: ov.typ, ExtImports: ov.imports, ExtNillable: ov.nillable},
+				{Label: "s", Spec: &fam.Spec{Kind: "string", Kw: []string{"minLength"}}, Required: true}}}
+			out = append(out, member{name: fmt.Sprintf("goJSONSchema.type %s required=%v nillable=%v", ov.typ, req, ov.nillable), cfg: cfg, root: root})
+		}
+	}
 	for _, sp := range specs {
 		for _, pos := range positions {
 			if sp.Kind == "object" && len(sp.Props) == 0 && pos[:3] == "def" {
